@@ -1,2 +1,362 @@
-// harness site: src/osu/difficulty/gradual.rs
+// harness site: src/osu/difficulty/gradual.rs — S1 (state-level inductive step), DESIGN.md §4a.
+//
+// Properties: C15, C02 (counters + processed objects), C14 (circles + sliders + spinners ==
+// objects passed, large ticks, max combo incl. hand-built sliders), C11 (the self-referential
+// struct: every dereference through the lifetime-extended references is checked by CBMC's
+// pointer checks, also after the struct has been moved), C05.
+//
+// Witness: N objects of symbolic kind (circle / spinner / slider with 0..=2 nested objects of
+// symbolic kind — hand built, no path geometry), cursor p, one call, optional move of the struct.
 #![allow(dead_code, unused_imports, clippy::all, clippy::pedantic)]
+
+use super::*;
+use crate::model::hit_object::{HitObject, HitObjectKind, Spinner};
+use crate::osu::object::{NestedSliderObject, NestedSliderObjectKind, OsuSlider};
+use crate::osu::Osu;
+use crate::verif_harness::common::{ghost_probe, verif_replay_table};
+use rosu_map::util::Pos;
+
+use super::super::skills::{aim::Aim, flashlight::Flashlight, speed::Speed};
+
+static mut LOG_AIM: [usize; 16] = [0; 16];
+static mut LEN_AIM: usize = 0;
+static mut LOG_SPEED: [usize; 8] = [0; 8];
+static mut LEN_SPEED: usize = 0;
+static mut LOG_FL: [usize; 8] = [0; 8];
+static mut LEN_FL: usize = 0;
+
+fn rec_aim<'a>(_s: &mut Aim, curr: &OsuDifficultyObject<'a>, _o: &[OsuDifficultyObject<'a>]) {
+    unsafe {
+        if LEN_AIM < 16 {
+            LOG_AIM[LEN_AIM] = curr.idx;
+        }
+        LEN_AIM += 1;
+    }
+}
+fn rec_speed<'a>(_s: &mut Speed, curr: &OsuDifficultyObject<'a>, _o: &[OsuDifficultyObject<'a>]) {
+    unsafe {
+        if LEN_SPEED < 8 {
+            LOG_SPEED[LEN_SPEED] = curr.idx;
+        }
+        LEN_SPEED += 1;
+    }
+}
+fn rec_fl<'a>(_s: &mut Flashlight, curr: &OsuDifficultyObject<'a>, _o: &[OsuDifficultyObject<'a>]) {
+    unsafe {
+        if LEN_FL < 8 {
+            LOG_FL[LEN_FL] = curr.idx;
+        }
+        LEN_FL += 1;
+    }
+}
+fn no_eval(_a: &mut OsuDifficultyAttributes, _m: &crate::GameMods, _s: &OsuSkills) {}
+
+#[derive(Clone, Copy)]
+struct Witness<const N: usize> {
+    kind: [u8; N],      // 0 circle, 1 spinner, 2 slider
+    n_nested: [u8; N],  // sliders: 0..=2 nested objects
+    nested: [[u8; 2]; N], // 0 repeat, 1 tail, 2 tick
+    p: usize,
+    call: u8,
+    n: usize,
+}
+
+fn any_witness<const N: usize>() -> Witness<N> {
+    let w = Witness::<N> {
+        kind: kani::any(),
+        n_nested: kani::any(),
+        nested: kani::any(),
+        p: kani::any(),
+        call: kani::any(),
+        n: kani::any(),
+    };
+    for i in 0..N {
+        kani::assume(w.kind[i] < 3 && w.n_nested[i] <= 2 && w.nested[i][0] < 3 && w.nested[i][1] < 3);
+    }
+    kani::assume(w.p <= N && w.call < 3);
+    w
+}
+
+struct Model {
+    circles: [u32; 5],
+    sliders: [u32; 5],
+    spinners: [u32; 5],
+    ticks: [u32; 5],
+    combo: [u32; 5],
+}
+
+fn model_of<const N: usize>(w: &Witness<N>) -> Model {
+    let mut m = Model { circles: [0; 5], sliders: [0; 5], spinners: [0; 5], ticks: [0; 5], combo: [0; 5] };
+    for i in 0..N {
+        let (mut c, mut s, mut sp, mut t, mut co) = (0, 0, 0, 0, 1);
+        match w.kind[i] {
+            0 => c = 1,
+            1 => sp = 1,
+            _ => {
+                s = 1;
+                for j in 0..2 {
+                    if (j as u8) < w.n_nested[i] {
+                        co += 1;
+                        if w.nested[i][j] != 1 {
+                            t += 1;
+                        }
+                    }
+                }
+            }
+        }
+        m.circles[i + 1] = m.circles[i] + c;
+        m.sliders[i + 1] = m.sliders[i] + s;
+        m.spinners[i + 1] = m.spinners[i] + sp;
+        m.ticks[i + 1] = m.ticks[i] + t;
+        m.combo[i + 1] = m.combo[i] + co;
+    }
+    m
+}
+
+fn osu_object_of<const N: usize>(w: &Witness<N>, i: usize) -> OsuObject {
+    let kind = match w.kind[i] {
+        0 => OsuObjectKind::Circle,
+        1 => OsuObjectKind::Spinner(Spinner { duration: 100.0 }),
+        _ => {
+            let mut nested = Vec::with_capacity(2);
+            for j in 0..2 {
+                if (j as u8) < w.n_nested[i] {
+                    nested.push(NestedSliderObject {
+                        pos: Pos::new(0.0, 0.0),
+                        start_time: 0.0,
+                        kind: match w.nested[i][j] {
+                            0 => NestedSliderObjectKind::Repeat,
+                            1 => NestedSliderObjectKind::Tail,
+                            _ => NestedSliderObjectKind::Tick,
+                        },
+                    });
+                }
+            }
+            OsuObjectKind::Slider(OsuSlider {
+                end_time: 0.0,
+                lazy_end_pos: Pos::new(0.0, 0.0),
+                lazy_travel_dist: 0.0,
+                lazy_travel_time: 0.0,
+                nested_objects: nested,
+            })
+        }
+    };
+    OsuObject {
+        pos: Pos::new(0.0, 0.0),
+        start_time: 1000.0 * (i as f64),
+        stack_height: 0,
+        stack_offset: Pos::new(0.0, 0.0),
+        kind,
+    }
+}
+
+fn representable_as_map<const N: usize>(w: &Witness<N>) -> bool {
+    let mut ok = true;
+    for i in 0..N {
+        ok &= w.kind[i] < 2;
+    }
+    ok
+}
+
+fn map_of<const N: usize>(w: &Witness<N>) -> Beatmap {
+    let mut map = Beatmap { mode: GameMode::Osu, ..Beatmap::default() };
+    for i in 0..N {
+        map.hit_objects.push(HitObject {
+            pos: Pos::new(100.0 + 30.0 * (i as f32), 100.0),
+            start_time: 1000.0 * (i as f64),
+            kind: if w.kind[i] == 0 { HitObjectKind::Circle } else { HitObjectKind::Spinner(Spinner { duration: 100.0 }) },
+        });
+        map.hit_sounds.push(Default::default());
+    }
+    map
+}
+
+const SKIP_NTH_BEYOND: u8 = 1;
+
+fn check_counters(a: &OsuDifficultyAttributes, m: &Model, k: usize) {
+    assert!(a.n_circles == m.circles[k], "C02 osu: n_circles counts the circles of the prefix");
+    assert!(a.n_sliders == m.sliders[k], "C02 osu: n_sliders counts the sliders of the prefix");
+    assert!(a.n_spinners == m.spinners[k], "C02 osu: n_spinners counts the spinners of the prefix");
+    assert!(a.n_large_ticks == m.ticks[k], "C02 osu: n_large_ticks counts ticks and repeats of the prefix");
+    assert!(a.max_combo == m.combo[k], "C02 osu: max_combo counts objects and nested objects of the prefix");
+    assert!((a.n_circles + a.n_sliders + a.n_spinners) as usize == k, "C14 osu: circles + sliders + spinners == objects passed");
+}
+
+fn check_step<const N: usize>(g: &mut OsuGradualDifficulty, w: &Witness<N>, m: &Model, map: Option<&Beatmap>, skip: u8) {
+    let p = w.p;
+    let remaining = N - p;
+    let ghost = ghost_probe();
+    let (a0, s0, f0) = unsafe { (LEN_AIM, LEN_SPEED, LEN_FL) };
+
+    assert!(g.len() == remaining, "C15 osu: len() equals the number of values still to come");
+    let (lo, hi) = g.size_hint();
+    assert!(lo == g.len() && hi == Some(lo), "C15 osu: size_hint() agrees with len()");
+    if w.call == 2 {
+        return;
+    }
+    let n = if w.call == 0 { 0 } else { w.n };
+    let res = if w.call == 0 { g.next() } else { g.nth(n) };
+
+    if n < remaining {
+        let k = p + n + 1;
+        assert!(res.is_some(), "C15 osu: a value is produced while enough values remain");
+        let a = res.unwrap();
+        check_counters(&a, m, k);
+        assert!(g.idx == k, "C15 osu: cursor advanced by n + 1");
+        assert!(g.len() == N - k, "C15 osu: len() after the call");
+        if ghost {
+            let first = if p == 0 { 0 } else { p - 1 };
+            let expect = (k - 1) - first;
+            unsafe {
+                assert!(LEN_AIM - a0 == 2 * expect && LEN_SPEED - s0 == expect && LEN_FL - f0 == expect,
+                    "C02 osu: every skill processes each difficulty object of the step exactly once");
+                let mut j = 0;
+                while j < expect {
+                    assert!(LOG_AIM[a0 + 2 * j] == first + j && LOG_AIM[a0 + 2 * j + 1] == first + j, "C02 osu: aim skills process objects in order");
+                    assert!(LOG_SPEED[s0 + j] == first + j && LOG_FL[f0 + j] == first + j, "C02 osu: speed/flashlight process objects in order");
+                    j += 1;
+                }
+            }
+        } else if let Some(map) = map {
+            let one = Difficulty::new().passed_objects(k as u32).calculate_for_mode::<Osu>(map).unwrap();
+            assert!(one == a, "C02 osu: value equals one-shot passed_objects(i)");
+        }
+    } else {
+        if !(skip & SKIP_NTH_BEYOND != 0 && remaining > 0) {
+            assert!(res.is_none(), "C15 osu: nth(n) with fewer than n+1 values left returns None");
+        }
+        assert!(g.next().is_none(), "C15 osu: exhausted calculator stays exhausted");
+        assert!(g.len() == 0, "C15 osu: len() is 0 once exhausted");
+    }
+}
+
+fn literal_state<const N: usize, const M: usize>(w: &Witness<N>, m: &Model) -> OsuGradualDifficulty {
+    let mut objs = Vec::with_capacity(N);
+    for i in 0..N {
+        objs.push(osu_object_of(w, i));
+    }
+    let objs: Box<[OsuObject]> = objs.into_boxed_slice();
+    let mut diff = Vec::with_capacity(M);
+    for i in 0..M {
+        diff.push(OsuDifficultyObject {
+            idx: i,
+            // 'static reference into the sibling boxed slice, as `new()` + `extend_lifetime` create it
+            // (built through a raw pointer: transmuting the whole boxed slice makes CBMC lose the
+            // concrete slice length)
+            base: unsafe { &*(&objs[i + 1] as *const OsuObject) },
+            start_time: 1000.0 * ((i + 1) as f64),
+            delta_time: 1000.0,
+            strain_time: 1000.0,
+            lazy_jump_dist: 0.0,
+            min_jump_dist: 0.0,
+            min_jump_time: 0.0,
+            travel_dist: 0.0,
+            travel_time: 0.0,
+            angle: None,
+        });
+    }
+    let diff_objects: Box<[OsuDifficultyObject<'static>]> = diff.into_boxed_slice();
+    let upto = if N == 0 { 0 } else { core::cmp::max(w.p, 1) };
+    let attrs = OsuDifficultyAttributes {
+        n_circles: m.circles[upto],
+        n_sliders: m.sliders[upto],
+        n_spinners: m.spinners[upto],
+        n_large_ticks: m.ticks[upto],
+        max_combo: m.combo[upto],
+        ..Default::default()
+    };
+    let mods = crate::GameMods::default();
+    OsuGradualDifficulty {
+        idx: w.p,
+        difficulty: Difficulty::new(),
+        attrs,
+        skills: OsuSkills {
+            aim: Aim::new(true),
+            aim_no_sliders: Aim::new(false),
+            speed: Speed::new(50.0, false),
+            flashlight: Flashlight::new(&mods, 50.0, 1200.0, 400.0),
+        },
+        diff_objects,
+        osu_objects: osu_objects::OsuObjects::new(objs),
+        _not_clonable: NotClonable,
+    }
+}
+
+fn restrict_to_class<const N: usize>(w: &Witness<N>, class: u8) {
+    if class == 1 {
+        kani::assume(w.call == 1 && w.p < N && w.n >= N - w.p);
+    }
+}
+
+fn s1_step<const N: usize, const M: usize, const MOVE: bool>(skip: u8, class: u8) {
+    let w = any_witness::<N>();
+    restrict_to_class(&w, class);
+    let m = model_of(&w);
+
+    if ghost_probe() || !representable_as_map(&w) {
+        let g = literal_state::<N, M>(&w, &m);
+        // C11: the boxed slices keep their heap address when the struct itself moves
+        // (MOVE is a const generic: a symbolic choice here turns every pointer field into an
+        // if-then-else of two copies and exhausts memory)
+        let mut g = if MOVE {
+            let b = Box::new(g);
+            let moved: OsuGradualDifficulty = *b;
+            moved
+        } else {
+            g
+        };
+        check_step(&mut g, &w, &m, None, skip);
+        let kc = class != 0;
+        kani::cover!(kc || N < 2 || (w.call == 1 && w.n > 0 && w.n < N - w.p), "nth(n>0) inside the map");
+        kani::cover!(kc || (w.call == 1 && w.n >= N - w.p), "nth beyond the end");
+        kani::cover!(kc || N == 0 || (w.call == 0 && w.p < N && w.kind[w.p] == 2 && w.n_nested[w.p] == 2), "next onto a slider with two nested objects");
+        kani::cover!(true, "end reached");
+        core::mem::forget(g);
+    } else {
+        let map = map_of(w_ref(&w));
+        let mut g = OsuGradualDifficulty::new(Difficulty::new(), &map).unwrap();
+        for _ in 0..w.p {
+            let _ = g.next();
+        }
+        let mut g = if MOVE { *Box::new(g) } else { g };
+        check_step(&mut g, &w, &m, Some(&map), skip);
+    }
+}
+
+fn w_ref<const N: usize>(w: &Witness<N>) -> &Witness<N> {
+    w
+}
+
+macro_rules! s1_proof {
+    ($name:ident, $n:literal, $m:literal, $unwind:literal) => {
+        s1_proof!($name, $n, $m, $unwind, SKIP_NTH_BEYOND, 0, false);
+    };
+    ($name:ident, $n:literal, $m:literal, $unwind:literal, $skip:expr, $class:literal, $mv:literal) => {
+        #[kani::proof]
+        #[kani::unwind($unwind)]
+        #[kani::stub(<Aim as StrainSkill>::process, rec_aim)]
+        #[kani::stub(<Speed as StrainSkill>::process, rec_speed)]
+        #[kani::stub(<Flashlight as StrainSkill>::process, rec_fl)]
+        #[kani::stub(crate::osu::difficulty::DifficultyValues::eval, no_eval)]
+        #[kani::stub(crate::verif_harness::common::ghost_probe, crate::verif_harness::common::ghost_probe_on)]
+        pub fn $name() {
+            s1_step::<$n, $m, $mv>($skip, $class);
+        }
+    };
+}
+
+s1_proof!(s1_osu_step_n0, 0, 0, 6);
+s1_proof!(s1_osu_step_n1, 1, 0, 6);
+s1_proof!(s1_osu_step_n2, 2, 1, 6);
+s1_proof!(s1_osu_step_n3, 3, 2, 7);
+s1_proof!(s1_osu_step_n4, 4, 3, 8);
+s1_proof!(kf_osu_nth_beyond_end, 2, 1, 6, 0, 1, false);
+// C11: the same step after the struct has been moved through a Box
+s1_proof!(s1_osu_moved_step_n2, 2, 1, 6, SKIP_NTH_BEYOND, 0, true);
+s1_proof!(s1_osu_moved_step_n3, 3, 2, 7, SKIP_NTH_BEYOND, 0, true);
+
+verif_replay_table!(verif_replay_osu_gradual;
+    kf_osu_nth_beyond_end, s1_osu_moved_step_n2, s1_osu_moved_step_n3,
+    s1_osu_step_n0, s1_osu_step_n1, s1_osu_step_n2, s1_osu_step_n3, s1_osu_step_n4,
+);
+
